@@ -72,6 +72,8 @@ class StandInEtherCat(E.ParallelEtherCat):
                 if cfg.get("fail_after") and state["frames"] >= cfg["fail_after"]:
                     emit(t="busfailure")
                     raise RuntimeError("simulated bus failure")   # run() ends by itself
+                if cfg.get("lose_from") is not None and state["frames"] > cfg["lose_from"]:
+                    return [("lose",)]          # only the cyclic frames are lost
             return [("return", cfg["delay"])]
 
         tr, sendtask = simbus.attach(self, bus, policy)
